@@ -127,6 +127,69 @@ func ShareOfCMP(c *cmp.Config) Share {
 
 // CheckMaterial is the "consistent key material" oracle.  It returns a list of
 // (key, detail) failures.  expectKey, when non-nil, is the group key recorded earlier.
+// CheckMaterialPartial judges the material of a subset of the parties (the honest finishers of a session with a
+// corrupted participant): everything CheckMaterial checks, except that reconstruction from secrets is only attempted
+// when at least t+1 of the given shares exist, while reconstruction in the exponent uses the full public table.
+func CheckMaterialPartial(r *vk.Rand, shares []Share, expectKey *ref.Pt, subsetLimit int) (fails [][2]string, subsetsChecked int) {
+	if len(shares) == 0 {
+		return nil, 0
+	}
+	t := shares[0].T
+	if shares[0].Additive || len(shares) >= t+1 {
+		return CheckMaterial(r, shares, expectKey, subsetLimit)
+	}
+	// too few secrets: pad the threshold check by validating tables only
+	add := func(k, f string, a ...any) { fails = append(fails, [2]string{k, fmt.Sprintf(f, a...)}) }
+	s0 := shares[0]
+	for _, s := range shares {
+		if s.Malformed != "" {
+			add("malformed-material", "party %q: %s", s.ID, s.Malformed)
+			return
+		}
+		if !s.GroupKey.Equal(s0.GroupKey) {
+			add("group-key-differs", "parties %q and %q report different group keys", s0.ID, s.ID)
+		}
+		if !bytes.Equal(s.ChainKey, s0.ChainKey) {
+			add("chain-key-differs", "parties %q and %q hold different chain keys", s0.ID, s.ID)
+		}
+		for id, p := range s0.Table {
+			if q, ok := s.Table[id]; !ok || !p.Equal(q) {
+				add("table-differs", "public share of %q differs between %q and %q", id, s0.ID, s.ID)
+			}
+		}
+		if e, ok := s.Table[s.ID]; !ok || !ref.MulG(s.Secret).Equal(e) {
+			add("own-share-mismatch", "party %q: secret*G differs from its table entry", s.ID)
+		}
+	}
+	if expectKey != nil && !expectKey.Equal(s0.GroupKey) {
+		add("group-key-changed", "group key differs from the recorded key")
+	}
+	if len(fails) > 0 {
+		return
+	}
+	ids := make([]string, 0, len(s0.Table))
+	for id := range s0.Table {
+		ids = append(ids, id)
+	}
+	sort.Strings(ids)
+	if t+1 <= len(ids) {
+		for _, sub := range SampleSubsets(r, len(ids), t+1, subsetLimit) {
+			xs := make([]*big.Int, len(sub))
+			ps := make([]ref.Pt, len(sub))
+			for i, j := range sub {
+				xs[i] = ref.IDScalar(ids[j])
+				ps[i] = s0.Table[ids[j]]
+			}
+			subsetsChecked++
+			if !ref.InterpolatePoint(xs, ps).Equal(s0.GroupKey) {
+				add("subset-table-reconstruction", "table entries %v do not interpolate to the group key", sub)
+				return
+			}
+		}
+	}
+	return
+}
+
 func CheckMaterial(r *vk.Rand, shares []Share, expectKey *ref.Pt, subsetLimit int) (fails [][2]string, subsetsChecked int) {
 	add := func(k, f string, a ...any) { fails = append(fails, [2]string{k, fmt.Sprintf(f, a...)}) }
 	if len(shares) == 0 {
